@@ -1065,10 +1065,11 @@ class NamespaceNode(AstNode, NamespaceMixin):
         else:
             self.eval_template("F_impl_filename", "_namespace")
             self.eval_template("F_module_name", "_namespace")
-        fmt_ns.F_module_name = fmt_ns.F_module_name.lower()
 
         if format:
             fmt_ns.update(format, replace=True)
+        # Also a name given by the user, as for the library's module.
+        fmt_ns.F_module_name = fmt_ns.F_module_name.lower()
 
         # If user changes PY_module_name, reflect change in PY_module_scope.
         if not skip:
